@@ -66,6 +66,18 @@ class Aggregate:
                                               json.dumps(self.timeouts, sort_keys=True)))
 
 
+def _by_kind(keys):
+    out = {}
+    for key in keys:
+        try:
+            first = json.loads(key)[0]
+        except Exception:
+            first = "?"
+        first = first if isinstance(first, str) and len(first) < 30 else "tuple"
+        out[first] = out.get(first, 0) + 1
+    return out
+
+
 def write(agg):
     prop = agg.prop
     evdir = os.environ.get("VERIF_EVIDENCE_DIR") or "/verif/evidence"
@@ -93,6 +105,7 @@ def write(agg):
                                        set(stats.get("probes", {})))},
             "counters": stats.get("counters", {}),
             "states_distinct": len(agg.state_keys),
+            "states_distinct_by_kind": _by_kind(agg.state_keys),
             "states_measure": getattr(prop, "STATE_MEASURE", ""),
             "distinct_event_logs": len(agg.digests_all),
             "discarded_runs": agg.discarded,
